@@ -118,8 +118,9 @@ def harness(ctx, args, timeout=1800, env=None):
     return p.stdout
 
 
-def hgen(ctx, prop, out, seed=None, tier=None):
-    harness(ctx, ["gen", prop, ctx.seed if seed is None else seed, tier or ctx.tier, out])
+def hgen(ctx, prop, out, seed=None, tier=None, base=None):
+    harness(ctx, ["gen", prop, ctx.seed if seed is None else seed, tier or ctx.tier, out],
+            env={"VERIF_BASE": base} if base else None)
     return out
 
 
